@@ -880,7 +880,9 @@ macro_rules! encode_properties_len {
             .iter()
             .map(|property| 4 + property.name.len() + property.value.len())
             .sum::<usize>();
-        $len += property_len + crate::var_int_len(property_len).expect("total properties length exceed 268,435,455");
+        // A section of 268,435,456 bytes or more takes 5 length bytes on the wire; the
+        // enclosing packet is then refused by `total_len()` with `InvalidVarByteInt`.
+        $len += property_len + crate::var_int_len(property_len).unwrap_or(5);
     };
     ($properties:expr, $len:expr, $($t:ident,)+) => {
         // Every properties have user property
@@ -893,7 +895,9 @@ macro_rules! encode_properties_len {
             crate::v5::encode_property_len!($t, $properties, property_len);
         )+
 
-            $len += property_len + crate::var_int_len(property_len).expect("total properties length exceed 268,435,455");
+            // A section of 268,435,456 bytes or more takes 5 length bytes on the wire; the
+            // enclosing packet is then refused by `total_len()` with `InvalidVarByteInt`.
+            $len += property_len + crate::var_int_len(property_len).unwrap_or(5);
     };
 }
 
